@@ -169,27 +169,102 @@ func (w *writeOnce) worst() (string, int) {
 	return "", 0
 }
 
+// attemptGate is a dial hook of the client peer that can hold one redial attempt of a
+// round inside the hook (after the framework has given the socket the attempt's
+// connection, before the recorder's verdict), so that traffic can be issued at a chosen
+// point of a redial round. It never refuses anything.
+type attemptGate struct {
+	mu      sync.Mutex
+	holdAt  int // the attempt (1-based, counted from arming) to hold; 0 = not armed
+	seen    int
+	reached chan struct{}
+	release chan struct{}
+}
+
+func (g *attemptGate) Name() string { return "c13attemptgate" }
+
+// arm makes the k-th redial attempt from now on wait inside the hook until release is called.
+func (g *attemptGate) arm(k int) (reached <-chan struct{}, release func()) {
+	g.mu.Lock()
+	defer g.mu.Unlock()
+	g.holdAt, g.seen = k, 0
+	g.reached, g.release = make(chan struct{}), make(chan struct{})
+	rel := g.release
+	var once sync.Once
+	return g.reached, func() { once.Do(func() { close(rel) }) }
+}
+
+func (g *attemptGate) PostDial(s erpc.PreSession, isRedial bool) *erpc.Status {
+	if !isRedial {
+		return nil
+	}
+	g.mu.Lock()
+	if g.holdAt == 0 {
+		g.mu.Unlock()
+		return nil
+	}
+	g.seen++
+	hit := g.seen == g.holdAt
+	reached, release := g.reached, g.release
+	if hit {
+		g.holdAt = 0
+	}
+	g.mu.Unlock()
+	if hit {
+		close(reached)
+		t := time.NewTimer(vt.LivenessBound) // safety net only: the case releases the gate itself
+		defer t.Stop()
+		select {
+		case <-release:
+		case <-t.C:
+		}
+	}
+	return nil
+}
+
 type c13Case struct {
 	Proto   string // "" = process default, else the protocol given to Dial: raw | json | pb
 	Budget  int32  // redial attempts: 1, 3 or -1 (unlimited)
 	Secure  bool   // both peers run the secure plugin and every message is marked secure
 	Wrap    bool   // the client's dial hook wraps the connection of every (re)dialled socket (ModifySocket)
 	SetID   bool
-	Actions []string // kill-idle | kill-during-call | calls | outage-short | outage-exhaust
+	Actions []string // kill-idle | kill-during-call | calls | outage-short | outage-exhaust | ...
 	Callers int
+	// traffic issued DURING a redial round (the traffic-in-... actions): c.Callers goroutines
+	// issue a call each and as many issue a push each
+	HoldAt int // 0: as soon as the client has noticed the loss; k>=1: while the k-th attempt of the round (modulo the attempts it has) is inside its dial hook
+	GapUS  int // pause between launching the traffic and letting the round go on
+	Refuse int // selects how many attempts of a refused-then-accepted round are refused (1..budget, 1..3 when unlimited)
+	// what happens after the session ended (finite budget exhausted)
+	Revive      int // 0: nothing more; 1: the server is reachable / the hook accepts again, a call, then the connection is killed under a pending call; 2: same, the server goes away under the pending call
+	ReviveCalls int // further calls on the revived session before the loss
 }
 
 func genC13(t *rapid.T) c13Case {
 	c := c13Case{Wrap: rapid.IntRange(0, 2).Draw(t, "wrap") == 0, Proto: rapid.SampledFrom([]string{"", "", "raw", "json", "pb"}).Draw(t, "proto"), Budget: rapid.SampledFrom([]int32{1, 3, -1}).Draw(t, "budget"), SetID: rapid.Bool().Draw(t, "setid"), Callers: rapid.IntRange(1, 4).Draw(t, "callers"), Secure: rapid.IntRange(0, 2).Draw(t, "secure") == 0}
 	n := rapid.IntRange(1, 5).Draw(t, "nactions")
 	for i := 0; i < n; i++ {
-		a := rapid.SampledFrom([]string{"kill-idle", "kill-idle", "kill-during-call", "calls", "outage-short", "outage-exhaust", "hook-rejects-redials", "traffic-during-outage", "traffic-during-outage", "reverse-call-in-flight", "reverse-call-in-flight", "refused-then-accepted", "refused-then-accepted", "writer-first-loss", "writer-first-loss"}).Draw(t, "action")
+		a := rapid.SampledFrom([]string{"kill-idle", "kill-idle", "kill-during-call", "calls", "outage-short", "outage-exhaust", "hook-rejects-redials", "traffic-during-outage", "traffic-during-outage", "reverse-call-in-flight", "reverse-call-in-flight", "refused-then-accepted", "refused-then-accepted", "writer-first-loss", "writer-first-loss", "traffic-in-refused-round", "traffic-in-refused-round", "traffic-in-refused-then-accepted", "traffic-in-refused-then-accepted", "traffic-in-exhaust-round"}).Draw(t, "action")
 		c.Actions = append(c.Actions, a)
-		if (a == "outage-exhaust" || a == "hook-rejects-redials") && c.Budget > 0 {
+		if c13Ends(a) && c.Budget > 0 {
 			break // the session ends there
 		}
 	}
+	c.HoldAt = rapid.IntRange(0, 4).Draw(t, "holdat")
+	c.GapUS = rapid.SampledFrom([]int{0, 100, 500, 4000}).Draw(t, "gap_us")
+	c.Refuse = rapid.IntRange(0, 2).Draw(t, "refuse")
+	c.Revive = rapid.SampledFrom([]int{0, 1, 1, 2}).Draw(t, "revive")
+	c.ReviveCalls = rapid.IntRange(0, 2).Draw(t, "revivecalls")
 	return c
+}
+
+// c13Ends: the action ends a session with a finite redial budget.
+func c13Ends(a string) bool {
+	switch a {
+	case "outage-exhaust", "hook-rejects-redials", "traffic-in-refused-round", "traffic-in-exhaust-round":
+		return true
+	}
+	return false
 }
 
 const c13Interval = 3 * time.Millisecond
@@ -228,7 +303,8 @@ func runC13(c c13Case) []string {
 	defer ts.down()
 	rec := &dialRecorder{wrapConn: c.Wrap}
 	once := &writeOnce{n: map[string]int{}}
-	cli := w.Peer(erpc.PeerConfig{RedialTimes: c.Budget, RedialInterval: c13Interval, DialTimeout: 2 * time.Second}, append(cliPlugins, rec, once)...)
+	gate := &attemptGate{}
+	cli := w.Peer(erpc.PeerConfig{RedialTimes: c.Budget, RedialInterval: c13Interval, DialTimeout: 2 * time.Second}, append(cliPlugins, gate, rec, once)...)
 	registerLib(cli) // the client serves calls issued by the server over the client's session
 	sess, stat := cli.Dial(ts.addr, dialProto...)
 	if !stat.OK() {
@@ -239,8 +315,12 @@ func runC13(c c13Case) []string {
 		var found erpc.Session
 		vt.WaitUntilFor(3*time.Second, func() bool {
 			found = nil
+			// the serving session whose remote address is the local address of the client's
+			// current connection (a serving session of an earlier connection may not have
+			// noticed its end yet)
+			local := sess.LocalAddr().String()
 			srv.RangeSession(func(s erpc.Session) bool {
-				if s.Health() && interface{}(s) != interface{}(not) {
+				if s.Health() && interface{}(s) != interface{}(not) && s.RemoteAddr().String() == local {
 					found = s
 					return false
 				}
@@ -252,6 +332,31 @@ func runC13(c c13Case) []string {
 	}
 	var fails []string
 	failf := func(format string, a ...interface{}) { fails = append(fails, fmt.Sprintf(format, a...)) }
+	// the listener goes away / comes back. While it is away nothing may answer at its address;
+	// when a redial is nevertheless accepted then, another process on this machine has been given
+	// the port meanwhile (and serves the same routes): the case says nothing and is skipped.
+	isDown, foreign := false, false
+	var redialsAtDown int32
+	srvDown := func() {
+		if !isDown {
+			redialsAtDown = atomic.LoadInt32(&rec.redials)
+		}
+		isDown = true
+		ts.down()
+	}
+	checkForeign := func() {
+		if isDown && atomic.LoadInt32(&rec.redials) > redialsAtDown {
+			foreign = true
+		}
+	}
+	srvUp := func() error {
+		checkForeign()
+		err := ts.listen()
+		if err == nil {
+			isDown = false
+		}
+		return err
+	}
 	wantID := sess.ID()
 	if c.SetID {
 		wantID = "user-7"
@@ -293,8 +398,123 @@ func runC13(c c13Case) []string {
 			failf("%s: the client's index does not list the re-established session under its id %q", when, sess.ID())
 		}
 	}
+	// launchTraffic starts c.Callers goroutines issuing one call each and as many issuing one
+	// push each, and returns once all of them are running; the returned function waits (bounded)
+	// for all of them and judges them: every call completes, OK with its own result or with a
+	// connection-class status; every push returns (OK or connection-class), handled at most once.
+	launchTraffic := func(tag string) (wait func(when string) bool) {
+		type pc struct {
+			cmd erpc.CallCmd
+			res *LibRes
+			rid string
+		}
+		var mu sync.Mutex
+		var pcs []pc
+		var pushRids []string
+		var pushStats []*erpc.Status
+		var wg, started sync.WaitGroup
+		for g := 0; g < c.Callers; g++ {
+			wg.Add(2)
+			started.Add(2)
+			go func(g int) {
+				defer wg.Done()
+				rid := fmt.Sprintf("%s-c%d", tag, g)
+				res := new(LibRes)
+				started.Done()
+				cmd := sess.AsyncCall(route, &LibArg{Rid: rid, Act: "ret", Val: rid}, res, make(chan erpc.CallCmd, 1), secureSetting...)
+				mu.Lock()
+				pcs = append(pcs, pc{cmd, res, rid})
+				mu.Unlock()
+			}(g)
+			go func(g int) {
+				defer wg.Done()
+				prid := fmt.Sprintf("%s-p%d", tag, g)
+				started.Done()
+				st := sess.Push(pushRoute, &LibArg{Rid: prid, Act: "ret", Val: prid}, secureSetting...)
+				mu.Lock()
+				pushRids = append(pushRids, prid)
+				pushStats = append(pushStats, st)
+				mu.Unlock()
+			}(g)
+		}
+		started.Wait()
+		return func(when string) bool {
+			done := make(chan struct{})
+			go func() { wg.Wait(); close(done) }()
+			if !vt.WaitClosed(done) {
+				mu.Lock()
+				nc, np := len(pcs), len(pushStats)
+				mu.Unlock()
+				failf("%s", vt.Hang(fmt.Sprintf("return of the %d AsyncCalls and %d Pushes issued %s (returned so far: %d calls, %d pushes; budget %d)", c.Callers, c.Callers, when, nc, np, c.Budget)))
+				return false
+			}
+			for _, p := range pcs {
+				if !vt.WaitClosed(p.cmd.Done()) {
+					failf("%s", vt.Hang("completion of a call issued "+when))
+					return false
+				}
+				if p.cmd.StatusOK() {
+					if p.res.Val != p.rid {
+						failf("a call issued %s completed OK with result %+v, the handler must have seen Val=%q", when, *p.res, p.rid)
+					}
+				} else if !isConnErr(p.cmd.Status()) {
+					failf("a call issued %s completed with %v, want OK or a connection error", when, p.cmd.Status())
+				}
+			}
+			for i, st := range pushStats {
+				if !st.OK() && !isConnErr(st) {
+					failf("push %s issued %s returned %v, want OK or a connection error", pushRids[i], when, st)
+				}
+			}
+			time.Sleep(300 * time.Microsecond)
+			for _, prid := range pushRids {
+				if n := lib.Pushes(prid); n > 1 {
+					failf("push %s issued %s was handled %d times", prid, when, n)
+				}
+			}
+			if n := lib.Pushes(""); n > 0 {
+				failf("%d push(es) issued %s reached the handler with an empty argument (secure=%v)", n, when, c.Secure)
+			}
+			return len(fails) == 0
+		}
+	}
+	// afterEnded: what the property states about a session whose budget is exhausted.
+	afterEnded := func(why string) {
+		if !vt.WaitClosed(sess.CloseNotify()) {
+			failf("%s", vt.Hang(fmt.Sprintf("close notification after %s (budget %d)", why, c.Budget)))
+			return
+		}
+		vt.WaitUntilFor(2*time.Second, func() bool { _, ok := cli.GetSession(wantID); return !ok })
+		if _, ok := cli.GetSession(wantID); ok {
+			failf("the session that ended after %s is still listed under %q", why, wantID)
+		}
+		var later erpc.CallCmd
+		if !vt.Returns(func() {
+			later = sess.AsyncCall(route, &LibArg{Rid: "later-x", Act: "ret"}, new(LibRes), make(chan erpc.CallCmd, 1), secureSetting...)
+		}) {
+			failf("%s", vt.Hang("return of AsyncCall on a session that ended after "+why))
+			return
+		}
+		if !vt.WaitClosed(later.Done()) {
+			failf("%s", vt.Hang("completion of a call issued after the session ended after "+why))
+			return
+		}
+		if later.StatusOK() || !isConnErr(later.Status()) {
+			failf("a call issued after the session ended (%s; nothing changed since) completed with %v, want a connection error", why, later.Status())
+		}
+		var pst *erpc.Status
+		if !vt.Returns(func() { pst = sess.Push(pushRoute, &LibArg{Rid: "later-push-x"}, secureSetting...) }) {
+			failf("%s", vt.Hang("return of Push on a session that ended after "+why))
+			return
+		}
+		if pst.OK() {
+			failf("a push on the session that ended after %s succeeded", why)
+		}
+	}
+	gap := time.Duration(c.GapUS) * time.Microsecond
 	okCall("before any loss")
 	ended := false
+	serverDown := false
 	for ai, act := range c.Actions {
 		if len(fails) > 0 || ended {
 			break
@@ -314,7 +534,7 @@ func runC13(c c13Case) []string {
 			if c.Budget > 0 {
 				continue // a finite budget may legitimately be exhausted here: covered by outage-exhaust
 			}
-			ts.down()
+			srvDown()
 			// wait until the client has noticed the loss: from then on every call and push takes
 			// the redial path, and since the server comes back for good they must succeed
 			noticed := vt.WaitUntilFor(2*time.Second, func() bool { return !sess.Health() })
@@ -350,8 +570,8 @@ func runC13(c c13Case) []string {
 				}(g)
 			}
 			time.Sleep(c13Interval)
-			if err := ts.listen(); err != nil {
-				failf("harness: cannot re-listen: %v", err)
+			if err := srvUp(); err != nil {
+				failf("SKIP: cannot re-listen, the address has been taken by another process meanwhile: %v", err)
 				break
 			}
 			wg.Wait()
@@ -481,9 +701,21 @@ func runC13(c c13Case) []string {
 			entered, release := lib.Gate(rid)
 			oldRes := new(LibRes)
 			oldCmd := old.AsyncCall(route, &LibArg{Rid: rid, Act: "slow", Val: "old-" + rid}, oldRes, make(chan erpc.CallCmd, 1), secureSetting...)
-			if !vt.WaitClosed(entered) {
+			select {
+			case <-entered:
+			case <-oldCmd.Done():
+				// not the scenario: the call did not reach the client's handler
+				select {
+				case <-entered:
+				default:
+					release()
+					failf("harness: the call issued by the server over the session serving %s completed with %v before the client-side handler was entered (client session local address %s, health %v)", old.RemoteAddr(), oldCmd.Status(), sess.LocalAddr(), sess.Health())
+				}
+			case <-time.After(vt.LivenessBound):
 				release()
 				failf("%s", vt.Hang("entry of the client-side handler of a call issued by the server"))
+			}
+			if len(fails) > 0 {
 				break
 			}
 			oldSeq := oldCmd.Output().Seq()
@@ -542,16 +774,127 @@ func runC13(c c13Case) []string {
 				checkIdentity("after a loss during a client-side handler")
 			}
 			okCall("after a loss during a client-side handler")
+		case "traffic-in-refused-round":
+			// the server stays reachable, the dial hook refuses every attempt of the round that
+			// follows the loss (each refused attempt has already given the socket its connection);
+			// calls and pushes are issued while that round is running. Finite budget: the session
+			// ends, every call / push fails within the bound. Unlimited: the hook relents after a
+			// while and the session must re-establish.
+			{
+				finite := c.Budget > 0
+				attempts := int(c.Budget) + 1
+				if !finite {
+					attempts = 4
+				}
+				k := 0
+				if c.HoldAt > 0 {
+					k = 1 + (c.HoldAt-1)%attempts
+				}
+				atomic.StoreInt32(&rec.rejectRedial, 1)
+				var reached <-chan struct{}
+				release := func() {}
+				if k > 0 {
+					reached, release = gate.arm(k)
+				}
+				ts.kill()
+				if k > 0 {
+					if !vt.WaitClosed(reached) {
+						release()
+						failf("%s", vt.Hang(fmt.Sprintf("redial attempt %d after a connection loss (budget %d, every attempt refused by the dial hook)", k, c.Budget)))
+						break
+					}
+				} else {
+					vt.WaitUntilFor(2*time.Second, func() bool { return !sess.Health() })
+				}
+				wait := launchTraffic(fmt.Sprintf("rr%d", ai))
+				time.Sleep(gap)
+				release()
+				if !finite {
+					time.Sleep(c13Interval)
+					atomic.StoreInt32(&rec.rejectRedial, 0)
+				}
+				when := fmt.Sprintf("during a redial round whose attempts are refused by the dial hook (traffic launched at attempt %d, 0 = when the loss was noticed)", k)
+				if !wait(when) {
+					break
+				}
+				if finite {
+					ended = true
+					afterEnded("every redial attempt was refused by the dial hook")
+				} else if stabilised(before, fmt.Sprintf("action %d: the dial hook refused the redial attempts for a while (unlimited budget)", ai)) {
+					checkIdentity("after a round of refused attempts with traffic")
+					okCall("after a round of refused attempts with traffic")
+				}
+			}
+		case "traffic-in-refused-then-accepted":
+			// the dial hook refuses the first r attempts of the round and accepts the next one,
+			// within the budget; calls and pushes are issued while the round is running
+			{
+				maxR := 3
+				if c.Budget > 0 {
+					maxR = int(c.Budget)
+				}
+				r := 1 + c.Refuse%maxR
+				k := 0
+				if c.HoldAt > 0 {
+					k = 1 + (c.HoldAt-1)%(r+1)
+				}
+				atomic.StoreInt32(&rec.refuseNext, int32(r))
+				var reached <-chan struct{}
+				release := func() {}
+				if k > 0 {
+					reached, release = gate.arm(k)
+				}
+				ts.kill()
+				if k > 0 {
+					if !vt.WaitClosed(reached) {
+						release()
+						failf("%s", vt.Hang(fmt.Sprintf("redial attempt %d after a connection loss (budget %d, %d attempts refused by the dial hook)", k, c.Budget, r)))
+						break
+					}
+				} else {
+					vt.WaitUntilFor(2*time.Second, func() bool { return !sess.Health() })
+				}
+				wait := launchTraffic(fmt.Sprintf("ra%d", ai))
+				time.Sleep(gap)
+				release()
+				ok := wait(fmt.Sprintf("during a redial round in which the dial hook refuses %d attempt(s) and then accepts (budget %d, traffic launched at attempt %d, 0 = when the loss was noticed)", r, c.Budget, k))
+				if ok && stabilised(before, fmt.Sprintf("action %d: connection killed, the dial hook refuses %d redial attempt(s) and then accepts (budget %d), traffic during the round", ai, r, c.Budget)) {
+					checkIdentity("after a round with refused redial attempts and traffic")
+					okCall("after a round with refused redial attempts and traffic")
+				}
+				atomic.StoreInt32(&rec.refuseNext, 0)
+			}
+		case "traffic-in-exhaust-round":
+			// the server goes away for good; calls and pushes are issued while the attempts of
+			// the round fail (finite budget; the unlimited case is traffic-during-outage)
+			if c.Budget < 0 {
+				continue
+			}
+			srvDown()
+			serverDown = true
+			vt.WaitUntilFor(2*time.Second, func() bool { return !sess.Health() })
+			time.Sleep(gap)
+			{
+				wait := launchTraffic(fmt.Sprintf("rx%d", ai))
+				if !wait("during a redial round whose attempts fail because the server is unreachable") {
+					break
+				}
+			}
+			ended = true
+			afterEnded("the server stayed unreachable for the whole redial round")
+			if cli.CountSession() != 0 {
+				failf("the client lists %d sessions after its only session ended", cli.CountSession())
+			}
 		case "outage-short":
 			// unreachable for less than the budget allows (or budget unlimited), then back
-			ts.down()
+			srvDown()
 			if c.Budget > 0 && c.Budget < 3 {
 				// a budget of 1 cannot be guaranteed to bridge any outage: restore at once
 			} else {
 				time.Sleep(c13Interval)
 			}
-			if err := ts.listen(); err != nil {
-				failf("harness: cannot re-listen: %v", err)
+			if err := srvUp(); err != nil {
+				failf("SKIP: cannot re-listen, the address has been taken by another process meanwhile: %v", err)
 				break
 			}
 			if c.Budget > 0 {
@@ -616,15 +959,15 @@ func runC13(c c13Case) []string {
 		case "outage-exhaust":
 			if c.Budget < 0 {
 				// unlimited budget: a long outage must NOT end the session
-				ts.down()
+				srvDown()
 				time.Sleep(8 * c13Interval)
 				select {
 				case <-sess.CloseNotify():
 					failf("a session with an unlimited redial budget ended during an outage")
 				default:
 				}
-				if err := ts.listen(); err != nil {
-					failf("harness: cannot re-listen: %v", err)
+				if err := srvUp(); err != nil {
+					failf("SKIP: cannot re-listen, the address has been taken by another process meanwhile: %v", err)
 					break
 				}
 				if stabilised(before, "a long outage with an unlimited budget") {
@@ -638,7 +981,8 @@ func runC13(c c13Case) []string {
 			entered, release := lib.Gate(rid)
 			cmd := sess.AsyncCall(route, &LibArg{Rid: rid, Act: "slow", Val: rid}, new(LibRes), make(chan erpc.CallCmd, 1))
 			vt.WaitClosed(entered)
-			ts.down()
+			srvDown()
+			serverDown = true
 			release()
 			if !vt.WaitClosed(sess.CloseNotify()) {
 				failf("%s", vt.Hang(fmt.Sprintf("close notification after the redial budget (%d) was exhausted", c.Budget)))
@@ -677,6 +1021,87 @@ func runC13(c c13Case) []string {
 			}
 			_ = start
 		}
+	}
+	// a later call on a session that has ended runs one further bounded round of attempts; when
+	// the server is reachable (and the hook accepts) again by then, the session works again -
+	// and is a redial-enabled session like before: a loss under a pending call completes it
+	if ended && c.Revive > 0 && len(fails) == 0 {
+		atomic.StoreInt32(&rec.rejectRedial, 0)
+		atomic.StoreInt32(&rec.refuseNext, 0)
+		if serverDown {
+			if err := srvUp(); err != nil {
+				failf("SKIP: cannot re-listen, the address has been taken by another process meanwhile: %v", err)
+				return fails
+			}
+			serverDown = false
+		}
+		before := atomic.LoadInt32(&rec.redials)
+		res := new(LibRes)
+		var cmd erpc.CallCmd
+		if !vt.Returns(func() {
+			cmd = sess.AsyncCall(route, &LibArg{Rid: "revive", Act: "ret", Val: "revive"}, res, make(chan erpc.CallCmd, 1), secureSetting...)
+		}) {
+			failf("%s", vt.Hang("return of AsyncCall on an ended session after the server became reachable again"))
+		} else if !vt.WaitClosed(cmd.Done()) {
+			failf("%s", vt.Hang("completion of a call issued on an ended session after the server became reachable again"))
+		} else if !cmd.StatusOK() {
+			if !isConnErr(cmd.Status()) {
+				failf("a call issued on an ended session (server reachable again) completed with %v, want OK or a connection error", cmd.Status())
+			}
+		} else if res.Val != "revive" {
+			failf("the call that revived the ended session completed OK with a wrong result %+v", *res)
+		} else {
+			// the session works again
+			for i := 0; i < c.ReviveCalls && len(fails) == 0; i++ {
+				okCall("on a session that had ended and was revived by a later call")
+			}
+			before = atomic.LoadInt32(&rec.redials)
+			rid := "revmid"
+			entered, release := lib.Gate(rid)
+			pres := new(LibRes)
+			var pend erpc.CallCmd
+			if !vt.Returns(func() {
+				pend = sess.AsyncCall(route, &LibArg{Rid: rid, Act: "slow", Val: rid}, pres, make(chan erpc.CallCmd, 1))
+			}) {
+				release()
+				failf("%s", vt.Hang("return of AsyncCall on a revived session"))
+			} else {
+				select {
+				case <-entered:
+				case <-pend.Done():
+				case <-time.After(vt.LivenessBound):
+					failf("%s", vt.Hang("entry of the gated handler (or failure of its call) on a revived session"))
+				}
+				if c.Revive == 2 {
+					srvDown()
+					serverDown = true
+				} else {
+					ts.kill()
+				}
+				release()
+				if len(fails) == 0 {
+					if !vt.WaitClosed(pend.Done()) {
+						failf("%s", vt.Hang(fmt.Sprintf("completion of a call that was awaiting its reply when the connection of a revived session (ended once: budget %d exhausted; revived by a later call) was lost", c.Budget)))
+					} else if pend.StatusOK() {
+						if pres.Val != rid {
+							failf("the call in flight at the loss of a revived session completed OK with a wrong result %+v", *pres)
+						}
+					} else if !isConnErr(pend.Status()) {
+						failf("the call in flight at the loss of a revived session completed with %v, want a connection error", pend.Status())
+					}
+				}
+				if len(fails) == 0 && c.Revive == 1 {
+					// the server is reachable: the revived session re-establishes like any other
+					if stabilised(before, "the connection of a revived session was killed (server reachable)") {
+						okCall("after the loss on a revived session")
+					}
+				}
+			}
+		}
+	}
+	checkForeign()
+	if foreign {
+		return []string{"SKIP: a redial was accepted while the harness' listener was closed: its port has been given to another process"}
 	}
 	if k, n := once.worst(); n > 1 {
 		failf("the pre-write hook fired %d times for one message (%s): a message re-sent after a redial is still one message", n, k)
@@ -724,7 +1149,7 @@ func okCallLocked(sess erpc.Session, route string, fails *[]string, n *int) {
 	}
 }
 
-const ruleC13 = "a client session created by Dial over loopback TCP (process-default protocol, or raw / json / protobuf protocol given to Dial) with redial budget 1 / 3 / unlimited (interval 3 ms), optionally with a user-assigned id, optionally with a dial hook that wraps the connection through ModifySocket on every (re)dial, and optionally with the secure plugin on both peers (every message marked secure), against a harness-owned listener that can kill all connections and refuse new ones; 1-5 generated fault actions: connection killed while idle, killed while a call awaits its (gated) reply, calls and pushes issued while the server is away (unlimited budget), short outage, outage that exhausts the budget (or a long outage with unlimited budget), a dial hook refusing every redial attempt while the server is reachable, a dial hook refusing budget-1 attempts of a round and then accepting (repeatable: the budget is per loss), bursts of concurrent calls, a call issued by the server whose client-side handler is still running at the loss followed by a server call with the same sequence number over the re-established connection; oracle: the pre-write hooks of the dialling peer fire once per message even when it is re-sent after a redial; calls in flight at the loss complete with a connection-class status or their genuine reply (never hang); after the session re-established (redial hook ran again, Health) calls succeed on the same Session value, the user-assigned id is kept and indexed; after exhaustion the close notification fires, the index forgets the session, the pending call and a later call fail with a connection error; unlimited budget survives a long outage; a session that is established at the end is closed and the serving end must see it end; non-trivial = a loss during a call, >=2 losses or exhaustion; distinct by case"
+const ruleC13 = "a client session created by Dial over loopback TCP (process-default protocol, or raw / json / protobuf protocol given to Dial) with redial budget 1 / 3 / unlimited (interval 3 ms), optionally with a user-assigned id, optionally with a dial hook that wraps the connection through ModifySocket on every (re)dial, and optionally with the secure plugin on both peers (every message marked secure), against a harness-owned listener that can kill all connections and refuse new ones; 1-5 generated fault actions: connection killed while idle, killed while a call awaits its (gated) reply, calls and pushes issued while the server is away (unlimited budget), short outage, outage that exhausts the budget (or a long outage with unlimited budget), a dial hook refusing every redial attempt while the server is reachable, a dial hook refusing budget-1 attempts of a round and then accepting (repeatable: the budget is per loss), bursts of concurrent calls, a call issued by the server whose client-side handler is still running at the loss followed by a server call with the same sequence number over the re-established connection; oracle: the pre-write hooks of the dialling peer fire once per message even when it is re-sent after a redial; calls in flight at the loss complete with a connection-class status or their genuine reply (never hang); after the session re-established (redial hook ran again, Health) calls succeed on the same Session value, the user-assigned id is kept and indexed; after exhaustion the close notification fires, the index forgets the session, the pending call and a later call fail with a connection error; unlimited budget survives a long outage; [traffic in a round] calls and pushes from 1-4 goroutines issued DURING a redial round - launched when the client has noticed the loss or while a chosen attempt of the round is held inside its dial hook (its connection already installed in the socket) - in which the hook refuses every attempt (finite budget: the session ends; unlimited: the hook relents), refuses 1..budget attempts and then accepts, or the server is unreachable (finite): every such AsyncCall returns and completes within the liveness bound, OK with its own result or with a connection-class status, every Push returns (OK or connection-class, handled at most once), and a call / push after the session ended fails with a connection error within the bound; [revival] after the session ended (any of the ending actions) optionally the server comes back / the hook accepts and a later call is issued: it completes within the bound (OK or connection error); if OK the session works (0-2 further calls succeed), then the connection is killed (or the server goes away) under a pending gated call: that call completes with a connection error or its genuine reply, and after a kill the session re-establishes and a call succeeds; a session that is established at the end is closed and the serving end must see it end; non-trivial = a loss during a call, traffic in a redial round, >=2 losses or exhaustion; distinct by case"
 
 func TestC13Redial(t *testing.T) {
 	rec := vt.NewRec(t, "C13", "redial", ruleC13)
@@ -735,10 +1160,16 @@ func TestC13Redial(t *testing.T) {
 			if a != "calls" {
 				losses++
 			}
-			if a == "kill-during-call" || a == "outage-exhaust" {
+			if a == "kill-during-call" || a == "outage-exhaust" || strings.HasPrefix(a, "traffic-in-") {
 				nt = true
 			}
 			rec.Class("action="+a, 1)
+			if strings.HasPrefix(a, "traffic-in-refused") {
+				rec.Class(fmt.Sprintf("traffic-launched-at=%d", c.HoldAt), 1)
+			}
+		}
+		if last := c.Actions[len(c.Actions)-1]; c13Ends(last) && c.Budget > 0 {
+			rec.Class(fmt.Sprintf("after-end=%d", c.Revive), 1)
 		}
 		nt = nt || losses >= 2
 		rec.Case(fmt.Sprintf("%+v", c), nt, fmt.Sprintf("budget=%d", c.Budget))
